@@ -5,7 +5,7 @@ package hessian
 import "reflect"
 
 func vZooTypeMap() map[string]reflect.Type {
-	t, _ := vExtractAll(&ZOuter{P: &ZInner{}}, &ZLists{})
+	t, _ := vExtractAll(&ZOuter{P: &ZInner{}}, &ZLists{}, &ZShare{})
 	return t
 }
 
@@ -32,7 +32,7 @@ func H_C14_arbitrary() {
 
 func zValidMessage(which int) ([]byte, map[string]reflect.Type) {
 	tm := vZooTypeMap()
-	_, nm := vExtractAll(&ZOuter{P: &ZInner{}}, &ZLists{})
+	_, nm := vExtractAll(&ZOuter{P: &ZInner{}}, &ZLists{}, &ZShare{})
 	var v interface{}
 	switch which {
 	case 0:
@@ -48,6 +48,9 @@ func zValidMessage(which int) ([]byte, map[string]reflect.Type) {
 		v = "a string with é"
 	case 5:
 		v = []int32{1, 2, 3}
+	case 9: // two slice fields sharing one list: the second travels as a back-reference
+		sh := []int32{1, 2}
+		v = &ZShare{A: sh, B: sh, C: []int32{3}, Z: 4}
 	case 6: // a list that contains itself
 		return []byte{0x58, 0x92, 0x51, 0x90, 0x91}, tm
 	case 7: // a map whose key is a list that contains itself (x58 x91 x51 x91), value 0
@@ -64,7 +67,7 @@ func zValidMessage(which int) ([]byte, map[string]reflect.Type) {
 // H_C14_mutated: a valid message with one octet replaced by an arbitrary one at every position, and every
 // prefix of it: the decoder returns; steps and allocations stay bounded by the input size.
 func H_C14_mutated() {
-	msg, tm := zValidMessage(vChoice("msg", 9))
+	msg, tm := zValidMessage(vChoice("msg", 10))
 	in := make([]byte, len(msg))
 	copy(in, msg)
 	switch vChoice("damage", 3) {
